@@ -35,7 +35,7 @@ Definition eval_case (c : list stmt * list variant) := map (eval_variant (fst c)
 """
 
 
-def coq_eval_values(ctx, header, case_type, fn, cases, shard=60, timeout=900):
+def coq_eval_values(ctx, header, case_type, fn, cases, shard=60, timeout=3000):
     """Evaluate `fn : case_type -> _` on every case by vm_compute (shards compiled in parallel, each
     under a timeout) and return the printed values converted to Python (lists/tuples/bools/ints)."""
     import ast
@@ -53,7 +53,8 @@ def coq_eval_values(ctx, header, case_type, fn, cases, shard=60, timeout=900):
             'Goal True. idtac "@@RES-BEGIN". Abort.', "Print res_.", 'Goal True. idtac "@@RES-END". Abort.']) + "\n")
         jobs.append(f)
     out, running = [], []
-    maxp = max(1, core.NCPU // 2)
+    import os
+    maxp = int(os.environ.get("VERIF_JOBS", "4"))
 
     def reap():
         f, p = running.pop(0)
@@ -251,16 +252,17 @@ def check_region(region, ins, outs, vals, bnds, allvars):
     if r1[0] != "ok":
         return None
     _, s1, tr1, c1 = r1
-    bad = []
+    # (1) the lists themselves: every upward-exposed read is of an input, every write of an output.
+    #     (C12_replay_sound_dyn: when this holds the replay below has the same trace and agrees on all
+    #      inputs and written locations, so any later mismatch is a non-written element of a non-input.)
     for l in exposed(tr1):
         if l[0] not in ins:
-            bad.append((l[0], "exposed-read-not-input", {"location": l}))
-            break
+            return [(l[0], "exposed-read-not-input", {"location": l})]
     for k, l in tr1:
         if k == "W" and l[0] not in outs:
-            bad.append((l[0], "write-not-output", {"location": l}))
-            break
-    # replay: poison everything that is not a reported input
+            return [(l[0], "write-not-output", {"location": l})]
+    # (2) replay: poison everything that is not a reported input
+    bad = []
     v2 = dict(vals)
     for x in allvars:
         if x not in ins:
@@ -268,19 +270,7 @@ def check_region(region, ins, outs, vals, bnds, allvars):
                 v2[l] = POISON + 13 * n + (sum(map(ord, x)) % 97)
     r2 = mf.interp(region, v2, bnds, fuel=40000)
     if r2[0] != "ok" or r2[3] != c1 or r2[2] != tr1:
-        if not bad:
-            # find the first divergence to name a culprit
-            culprit = None
-            if r2[0] == "ok":
-                for e1, e2 in zip(tr1, r2[2]):
-                    if e1 != e2:
-                        break
-            for l in exposed(tr1):
-                if l[0] not in ins:
-                    culprit = l[0]
-                    break
-            bad.append((culprit or "?", "replay-diverges", {"outcome": r2[0]}))
-        return bad
+        return [("?", "replay-diverges-without-exposed-read", {"outcome": r2[0]})]
     s2 = r2[1]
     written = {l for k, l in tr1 if k == "W"}
     for x in outs:
@@ -333,9 +323,10 @@ def run(ctx):
     rng = ctx.rng("gen")
     reader = FortranReader()
     memoise_parser_factory()
-    nprog = ctx.pick(12, 160)
+    nprog = ctx.pick(14, 160)
     nstores = ctx.pick(3, 5)
 
+    n_optdiff = [0]
     regions = []        # one per region: {"coq": term, "variants": [variant dict ...], meta}
     n_refused = n_oos = 0
 
@@ -369,6 +360,8 @@ def run(ctx):
                     variants.append((True, ex))
                     ctu_on = impl_ctu(nodes, True)
                     if (ex[1], ex[2]) != ctu_on:
+                        n_optdiff[0] += 1
+                    if (ex[1], ex[2]) != ctu_on and n_optdiff[0] <= 2:
                         ctx.violation({"property": "C12", "what": "ExtractNode lists differ from get_in_out_parameters "
                                        "with the ExtractTrans default options", "region": rtxt,
                                        "extract_node": ex[1:], "call_tree_utils": ctu_on}, no_input=True)
@@ -406,7 +399,10 @@ def run(ctx):
             stores.append((vals, b))
         do_routine(prog, g, "witness:" + key, stores)
     n_wit = len(regions)
+    max_regions = ctx.pick(170, 10 ** 9)
     for pi in range(nprog):
+        if len(regions) >= max_regions:
+            break
         g = Gen12(rng, max_depth=2)
         prog = g.block({}, 0, False, rng.randint(2, 5))
         stores = [g.store() for _ in range(nstores)]
@@ -432,7 +428,7 @@ def run(ctx):
             vs.append("(%s, %s, %s, %s)" % ("true" if v["sh"] else "false", names(r, v["ins"]), names(r, v["outs"]),
                                             names(r, [c for c in culprits if c is not None])))
         coq_cases.append("(%s, %s)" % (r["coq"], core.coq_list(vs)))
-    results = coq_eval_values(ctx, HEADER, "list stmt * list variant", "eval_case", coq_cases, shard=ctx.pick(40, 60))
+    results = coq_eval_values(ctx, HEADER, "list stmt * list variant", "eval_case", coq_cases, shard=ctx.pick(70, 100))
     mism, n_unsafe = [], 0
     for r, res in zip(regions, results):
         for v, (agree, safe, rsafe, reasons) in zip(r["variants"], res):
